@@ -42,31 +42,31 @@ class C02(PropCheck):
             'random and adversarial block/paragraph documents (page heights from 1px, lengths up to 2048px, fixed '
             'heights 0): outcome kind (pages / exception class) and full pagination compared with the model; '
             'non-trivial = at least 2 pages')
-        pm_corr.add_cases(run, sec, run.n(120, 3000), skip_errors=False)
-        pm_corr.add_cases(run, sec, run.n(120, 3000), gen=adversarial_doc, skip_errors=False)
+        pm_corr.add_cases(run, sec, run.n(90, 3000), skip_errors=False)
+        pm_corr.add_cases(run, sec, run.n(90, 3000), gen=adversarial_doc, skip_errors=False)
         sec_oof = run.section(
             'pm-oof-outcomes',
             'stage 2a of the pagination model: documents with absolutely positioned boxes, full-width floats and clear; '
             'outcome kind and full pagination compared with Model/PaginateOof; non-trivial = at least 2 pages')
-        pm_oof_corr.add_cases(run, sec_oof, run.n(80, 2500), skip_errors=False)
+        pm_oof_corr.add_cases(run, sec_oof, run.n(60, 2500), skip_errors=False)
         sec_foot = run.section(
             'pm-foot-outcomes',
             'stage 2b of the pagination model: documents with footnotes (every policy, area with max-height, named '
             'pages); outcome kind and full pagination compared with Model/PaginateFoot; non-trivial = at least 2 pages '
             'and one footnote')
-        pm_foot_corr.add_cases(run, sec_foot, run.n(80, 2500), skip_errors=False)
+        pm_foot_corr.add_cases(run, sec_foot, run.n(60, 2500), skip_errors=False)
         sec_col = run.section(
             'pm-col-outcomes',
             'stage 2c of the pagination model: documents with multi-column containers; outcome kind (the model has the '
             'Python failure points of columns_layout as explicit outcomes) and full pagination compared with '
             'Model/PaginateCol; non-trivial = at least 2 pages and a container')
-        pm_col_corr.add_cases(run, sec_col, run.n(80, 2500), skip_errors=False)
+        pm_col_corr.add_cases(run, sec_col, run.n(60, 2500), skip_errors=False)
         sec2 = run.section(
             'write-pdf-total',
             'the same documents rendered through the public API and written to PDF: the model of the unmodelled '
             'stages is "returns at least one page and PDF bytes"; non-trivial = at least 2 pages')
         docs.quiet()
-        for _ in range(run.n(40, 800)):
+        for _ in range(run.n(30, 800)):
             doc = adversarial_doc(run.rng) if run.rng.random() < 0.5 else pm.gen_doc(run.rng)
             html = pm.doc_html(doc)
 
@@ -81,7 +81,7 @@ class C02(PropCheck):
             'documents of the wide grammar (inline markup, lists, tables, columns, flex, grid, floats, positioned '
             'boxes, footnotes, breaks; pages down to one line) rendered and written to PDF: outcome kind with the '
             'innermost weasyprint frame vs the model "returns"; non-trivial = uses at least 3 features')
-        for _ in range(run.n(100, 3000)):
+        for _ in range(run.n(80, 3000)):
             doc = widegen.gen(run.rng, adversarial=True)
             out = wide_trace.render_outcome(doc['html'])
             sec3.add(sx.line('total'), out, meta={'html': doc['html'], 'features': doc['features']},
